@@ -37,7 +37,7 @@ RULE = ("R: scripts of 4-40 requests by 1-4 logical clients on 1-3 endpoints (di
         "change, beyond-end / later Block2 block without rendering; Block2 options with block number 0 and "
         ">= 1 on first, middle and final Block1 blocks); about 7 % of the handler behaviours raise "
         "(NotFound, MethodNotAllowed, BadRequest, Forbidden, ServiceUnavailable, RuntimeError, ValueError, "
-        "KeyError) instead of returning a message, "
+        "KeyError) or return something that is not a message (None, a str, an int) instead of returning a message, "
         "with idle times 0..3T biased to T-1,T,T+1,2T-1,2T,2T+1 (T = MAX_TRANSMIT_WAIT); body and "
         "rendering lengths are biased to k*size-1,k*size,k*size+1 and maximum_payload_size-1..+1. "
         "Boundary tables enumerate every szx 0..7 x those lengths (final blocks of size-1, size, size+1, "
@@ -46,7 +46,7 @@ RULE = ("R: scripts of 4-40 requests by 1-4 logical clients on 1-3 endpoints (di
         "a stored assembly, each followed by blocks 1, 2 and the block at the suggested offset), first x final "
         "Block2 option of an upload (absent, 0, 1, 2/3, other size) with and without an older kept rendering, "
         "every idle "
-        "time x timer phase, and every exception class raised on a block-0 request (Block2 0, no Block2, "
+        "time x timer phase, and every exception class raised / every kind of non-message returned on a block-0 request (Block2 0, no Block2, "
         "final Block1 block, resource without assembly) while an older rendering is kept, followed by "
         "later blocks; the block-0, Block2 and stale-rendering tables also on the observable resources. "
         "Round 4: ~30 % of the scripts let handlers suspend (a request for the beginning is held and ends "
@@ -69,8 +69,10 @@ TRUSTED = ["harness/c06_util.py: socket-less virtual-clock asyncio loop (timers 
 ASSUMPTIONS = ["needs_blockwise_assembly and add_observation do not suspend (requests reach the spool in their order of "
                "arrival); a handler suspends at most once, before it produces its outcome; cancelled renderings are "
                "not generated",
-               "the handler returns a response message (no request code) or raises; an exception is answered as "
-               "pipe.error_to_message renders it (its code is compared, the rendering itself is C09's subject)",
+               "a handler that returns a message returns a response (no request code); an exception is answered as "
+               "pipe.error_to_message renders it (its code is compared, the rendering itself is C09's subject); "
+               "a handler that returns something that is not a message (None, a str, an int) is inside the "
+               "quantifier since audit F: answered 5.00, no rendering",
                "diagnostic payload text of error responses is not compared",
                "BERT (size exponent 7) is only exercised with maximum_payload_size >= 1024; the length of a final "
                "BERT block is not constrained; size exponent 7 is served to UDP peers as well (position of the "
@@ -87,6 +89,11 @@ H_CODES = [69, 69, 69, 68, 65, 132, 163]
 # error classes named after response codes; anything that is not a CoAP error is 5.00)
 EXC_CODES = {"NotFound": 132, "MethodNotAllowed": 133, "BadRequest": 128, "Forbidden": 131,
              "ServiceUnavailable": 163, "RuntimeError": 160, "ValueError": 160, "KeyError": 160}
+# ... and what a scripted handler returns INSTEAD of a message (`render` of a resource written against
+# interfaces.Resource directly -- resource.Resource.render would look at `.code` itself): no rendering
+# exists for such a request either, and it is answered 5.00
+NON_MESSAGES = {"ret:None": None, "ret:str": "no message", "ret:int": 205}
+EXC_CODES.update({k: 160 for k in NON_MESSAGES})
 EXC_NAMES = sorted(EXC_CODES)
 
 
@@ -172,6 +179,11 @@ def run_script(aiocoap, script, direct=False):
         res_of = {}
 
         def answer(h, hopts, resp, exc, is_open):
+            if not isinstance(resp, aiocoap.Message):
+                # what the handler returned went on the pipe as it is (seen with mutants that by-pass
+                # the rendering cache): no response at all, as far as the property goes
+                return "X|-|-|_|-", {"code": 0, "b1": None, "b2": None, "opts": [], "payload": b"", "exc": None,
+                                     "open": is_open, "observing": False, "nonmessage": type(resp).__name__}
             rp = bytes(resp.payload)
             ropts = U.opts_of(resp)
             observing = False
@@ -214,6 +226,9 @@ def run_script(aiocoap, script, direct=False):
                 hexc = h_exc(st["h"])
                 if hexc and (hexc not in EXC_CODES or EXC_CODES[hexc] != hcode):
                     raise HarnessError(f"script raises {hexc!r} with code {hcode}")
+                if hexc in NON_MESSAGES and not st["asm"]:
+                    raise HarnessError("script: a non-message returned by a resource that does its own block "
+                                       "handling is outside the model")
                 hpayload = mk_bytes(hspec)
                 ppay = bytes(msg.payload)
                 pspec = spec_str(st["payload"]) if ppay == payload else U.hexs(ppay)
@@ -236,7 +251,7 @@ def run_script(aiocoap, script, direct=False):
                     str(msg.remote.maximum_payload_size), str(msg.remote.maximum_block_size_exp),
                     str(int(msg.code)), U.blk_raw(msg, 27), U.blk_raw(msg, 23),
                     U.opts_str(U.opts_of(seen_by)), pspec,
-                    ("!" if hexc else "") + str(hcode), U.opts_str(hexopts(hopts)), spec_str(hspec),
+                    "?" if hexc in NON_MESSAGES else ("!" if hexc else "") + str(hcode), U.opts_str(hexopts(hopts)), spec_str(hspec),
                     "1" if observable else "0",
                     opath_str(hexopts(st["opts"])) if site else "-",
                     "1" if hold else "0"]))
@@ -364,6 +379,8 @@ class Reference:
         R = (hcode, hexopts(hopts), mk_bytes(hspec))
         seen = o["seen"]
         pending = bool(o.get("pending"))
+        if not pending and o.get("nonmessage"):
+            return f"a {o['nonmessage']} object, not a message, was put on the pipe as the response"
         if not pending and o["code"] >= 160 and o["exc"] and not (seen and hexc):
             # an error the machinery produced (a 5.xx message the handler returned is judged below
             # as its rendering; an exception the handler raised as its outcome)
@@ -498,6 +515,8 @@ class Reference:
         if ctx is None:
             return ""
         hexc = ctx["hexc"]
+        if o.get("nonmessage"):
+            return f"a {o['nonmessage']} object, not a message, was put on the pipe as the response"
         if o["code"] >= 160 and o["exc"] and not hexc:
             return f"5.xx response {o['code']} ({o['exc']})"
         if ctx["kind"] == "plain":
@@ -509,7 +528,7 @@ class Reference:
         if hexc:
             # this block-0 request has no rendering
             if not (o["exc"] and o["code"] == EXC_CODES[hexc]):
-                return f"handler raised {hexc}, answered {o['code']}"
+                return f"handler raised {hexc}, answered {o['code']}"       # `ret:…`: returned a non-message
             if o["b2"] is not None:
                 return f"error response to a raising handler carries Block2 {o['b2']}"
             if latest:
@@ -732,7 +751,7 @@ def gen_script(rng, T, big=False):
                 kind, b2 = "d_resize", (max(1, c.down_next * dsize // U_size(nz)), 0, nz)
             pl = "-" if c.code == GET or rng.random() < 0.7 else pat(rng.randrange(1, 9), c.seed)
             steps.append(step_of(c, dt, None, b2, pl, h, opts,
-                                 asm=0 if rng.random() < 0.03 else 1))
+                                 asm=0 if rng.random() < 0.03 and h_exc(h) not in NON_MESSAGES else 1))
             kinds.append(kind)
             continue
         # ---- upload side
@@ -952,7 +971,8 @@ def boundary_scripts(T):
                     st(GET, 1, None, [2, 0, 2], "-", [69, [], "-"], opts=o, res=res)]})
             # a rendering kept from an earlier request is not served after a newer request for the
             # beginning was answered completely, or failed
-            for h2 in ([69, [], pat(10, 9)], h_raise("NotFound"), h_raise("RuntimeError"), [132, [], pat(4, 1)]):
+            for h2 in ([69, [], pat(10, 9)], h_raise("NotFound"), h_raise("RuntimeError"), [132, [], pat(4, 1)],
+                       h_raise("ret:None"), h_raise("ret:str")):
                 for b2 in (None, [0, 0, 0]):
                     out.append({"kind": "R", "eps": ep, "steps": [
                         st(GET, 0, None, [0, 0, 0], "-", [69, [], pat(40, 1)], opts=o, res=res),
@@ -1015,7 +1035,10 @@ def boundary_scripts(T):
                  st(PUT, 1, [0, 1, 0], None, pat(16, 1), hr), st(PUT, 1, [1, 0, 0], [0, 0, 0], pat(3, 2), hr),
                  st(PUT, 1, None, [1, 0, 0], "-", okh), st(PUT, 1, [2, 0, 0], None, pat(3, 2), okh)]
         out.append({"kind": "R", "eps": ep, "steps": steps})
-        # a resource that does its own block handling
+        # a resource that does its own block handling (what it returns goes on the pipe as it is: a
+        # non-message there is not the block-wise machinery's business)
+        if name in NON_MESSAGES:
+            continue
         s0 = st(GET, 0, None, [0, 0, 0], "-", hr)
         s0["asm"] = 0
         out.append({"kind": "R", "eps": ep, "steps": [s0, st(GET, 1, None, [1, 0, 0], "-", okh)]})
@@ -1066,7 +1089,8 @@ def path_opts(path, extra=()):
 
 
 H_KINDS = {"cut": lambda sd: [69, [[12, "2a"]], pat(40, sd, 3)], "fits": lambda sd: [69, [], pat(10, sd)],
-           "raises": lambda sd: h_raise("NotFound"), "raises5": lambda sd: h_raise("RuntimeError")}
+           "raises": lambda sd: h_raise("NotFound"), "raises5": lambda sd: h_raise("RuntimeError"),
+           "junk": lambda sd: h_raise("ret:None")}
 
 
 def overlap_scripts(T):
@@ -1093,7 +1117,7 @@ def overlap_scripts(T):
                 _st(GET, 1, [1, 0, 0], [0, 0, 0], pat(3, sd + 1), h, hold=hold, res=res, opts=opts, e=e)]
     forms = [("b2", "b2", eps), ("none", "b2", esmall), ("upload", "upload", eps), ("b2", "upload", eps)]
     for fa, fb, ee in forms:
-        kinds = list(H_KINDS) if (fa, fb) == ("b2", "b2") else ["cut", "fits", "raises"]
+        kinds = list(H_KINDS) if (fa, fb) == ("b2", "b2") else ["cut", "fits", "raises", "junk"]
         for ka in kinds:
             for kb in kinds:
                 ha, hb = H_KINDS[ka](1), H_KINDS[kb](101)
@@ -1113,7 +1137,7 @@ def overlap_scripts(T):
                         out.append({"kind": "R", "eps": ee, "steps": steps})
     # three in flight, all orders of completion; the middle one raising
     import itertools
-    for mid in ("cut", "raises"):
+    for mid in ("cut", "raises", "junk"):
         for order in itertools.permutations((0, 1, 2)):
             hs = [H_KINDS["cut"](1), H_KINDS[mid](60), H_KINDS["cut"](120)]
             steps = [_st(GET, 0 if i == 0 else 1, None, [0, 0, 0], "-", hs[i], hold=1) for i in range(3)]
